@@ -9,6 +9,11 @@ def main():
     sc = d.get("witness", {}).get("scenario") or d.get("scenario") or d
     K = float(sys.argv[2]) if len(sys.argv) > 2 else 20.0
     harness.setup_process(K)
+    import os
+    if os.environ.get("VERIF_TY"):
+        which, _, seed = os.environ["VERIF_TY"].partition(":")
+        print("targeted yield", harness.install_targeted_yield(p=0.3 if which == "emission" else 0.15, max_sleep=0.004,
+                                                              seed=int(seed or 0), which=which))
     wf = sc["wf"]
     nodes = wfgen.expand(wf)
     loc = vlib.mkscratch("dbg")
